@@ -1,7 +1,8 @@
-// Harness for the properties decided on the detector crate alone (C01-C08).
-//   vdet gen <property> <tier> <seed> <outdir>   writes cases.txt / impl.txt / meta.txt
-//   vdet obs < cases                             prints the implementation's observation per case line
+// Harness for the properties decided on the physics crate (C09-C18), built with --cfg alpha_g_verif.
+//   vphys gen <property> <tier> <seed> <outdir>   writes cases.txt / impl.txt / meta.txt
+//   vphys obs < cases                             prints the implementation's observation per case line
 // One module per property; each exports `run(tier, seed, &mut Sink)` and `observe_line(&str) -> Option<String>`.
+#[path = "../../det/src/util.rs"]
 mod util;
 
 macro_rules! properties {
@@ -20,10 +21,7 @@ macro_rules! properties {
     };
 }
 
-properties! {
-    c01 => "C01", c02 => "C02", c03 => "C03", c04 => "C04",
-    c05 => "C05", c06 => "C06", c07 => "C07", c08 => "C08",
-}
+properties! { c09 => "C09", c10 => "C10", c11 => "C11", c13 => "C13", c14 => "C14", c15 => "C15", c16 => "C16", c17 => "C17", c18 => "C18" }
 
 fn main() {
     util::harness_main(run_property, observe_line);
